@@ -174,17 +174,58 @@ def _keyword_over_statement(program: Program, c: ClassInfo, sk) -> bool:
             return False
         attr = recv_path(sp.recv).split("[")[0].split(".")[0]
         kinds = _child_classes(program, c, attr)
+        keyword = "".join(p.text for p in flat if isinstance(p, Lit)).strip().upper()
+        if keyword in SUBQUERY_PREDICATES:
+            n += 1          # the grammar of these keywords takes a parenthesised subquery and nothing else
+            continue
         if not kinds or not all(k is sel or k.is_subclass_of(sel) for k in kinds):
             return False
         n += 1
     return n > 0
 
 
+# keywords whose only operand, by the SQL grammar, is a parenthesised query expression (reference knowledge, like the
+# precedence table): a class printing one of them in front of an operand it renders with subquery=True is self-delimiting
+SUBQUERY_PREDICATES = {"EXISTS", "NOT EXISTS", "ANY", "ALL", "SOME", "UNIQUE"}
+
+
+def _self_bracketing_postfix(program: Program, c: ClassInfo, kinds) -> bool:
+    """a postfix operator (`<operand> KEYWORD <name>`) whose single operand slot is bracketed for every child that is not a
+    primary (compound expressions, criteria, NOT, unary minus, negative literals): it binds tighter than every infix
+    operator by construction, so neither its operand nor its use as an operand can regroup.  Decided by rendering the
+    class with one concrete child of every kind, as the cell table does."""
+    sk0, _ = render(program, c)
+    slots = []
+    for p, _c, _r in walk_parts(peel(sk0)):
+        if isinstance(p, SlotP) and p.method == "get_sql":
+            a = recv_path(p.recv).split("[")[0]
+            if a not in slots:
+                slots.append(a)
+    if len(slots) != 1 or "." in slots[0]:
+        return False
+    slot = slots[0]
+    for k in kinds:
+        child = k.make()
+        child.name = slot
+        if k.name == "negative-literal":
+            from ..symex import Evaluator
+            child.attrs["value"] = Evaluator.typed("v", {"int"})       # the literal that may start with '-' is a number
+        try:
+            sk, _ = render(program, c, attrs={"alias": Const(None), slot: child}, ctx=CtxV.incoming().with_(with_alias=Const(False), subcriterion=Const(False)))
+        except AnalysisError:
+            return False
+        sc = slot_context(peel(sk), slot)
+        if sc is None:
+            return False
+        primary = k.level == LV_ATOM and not k.may_minus
+        if not primary and not sc[0]:
+            return False
+    return True
+
+
 def _renders_a_bare_name(program: Program, c: ClassInfo, sp) -> bool:
     """the slot calls a name renderer of a child (`self._window.get_name_sql(ctx)`): the method, on every class the
     attribute is declared to hold, prints holes and literals only -- an identifier, not an expression operand"""
-    if sp.method == "get_sql":
-        return False
     from .c07 import _child_classes
     memo = program.__dict__.setdefault("_c06_bare_name", {})
     attr = recv_path(sp.recv).split("[")[0].split(".")[0]
@@ -193,6 +234,12 @@ def _renders_a_bare_name(program: Program, c: ClassInfo, sp) -> bool:
         return memo[key]
     res = False
     kinds = [k for k in _child_classes(program, c, attr) if k.resolve(sp.method) is not None]
+    if sp.method == "get_sql":
+        # a child whose own get_sql prints a name and nothing else (a named window referenced by `OVER "w"`): only when the
+        # attribute is declared to hold such classes exclusively, subclasses included
+        kinds = kinds + [s_ for k in kinds for s_ in k.all_subclasses()]
+        if any(k.is_subclass_of(program.cls("Term")) for k in kinds):
+            kinds = []
     if kinds:
         res = True
         for k in kinds:
@@ -409,6 +456,9 @@ def check(program: Program, run: Run) -> None:
                 postfix_parents.append((dc, c))
         elif shp == "prefix" and _keyword_over_statement(program, c, sk):
             class_kind[c.qualname] = "atom (keyword over an operand that is a statement and is rendered with subquery=True: self-delimiting like a function call)"
+            known = True
+        elif shp == "postfix" and _self_bracketing_postfix(program, c, kinds):
+            class_kind[c.qualname] = "atom (postfix operator that brackets every operand that is not a primary: binds tighter than any infix operator by construction)"
             known = True
         elif shp in ("postfix", "infix", "prefix"):
             dc = render_owner(c, sk)
